@@ -279,6 +279,77 @@ def extract_alias(tree: ast.Module) -> dict:
     }
 
 
+# ---------------------------------------------------------------------------------------------------------------
+# cache uses (third round, seeded/C03-8): which mutators touch the memoised cache at all?
+# ---------------------------------------------------------------------------------------------------------------
+
+
+def extract_cache_uses(tree: ast.Module, singles: list[str]) -> dict:
+    """For every single-item and batch mutator: the sorted names X of `self.X` occurrences in its body (calls and
+    property reads alike) such that X is a method of Model that can BUILD the cache -- it stores something other than
+    None into self._cache, or mentions (transitively) a method that does -- and is not itself one of the modelled
+    mutators (nested public mutator calls are steps of the state machine with their own decorator); plus "_cache"
+    when the body READS self._cache.  The decorator runs before the body, so whatever the body builds survives the
+    call.  Shipped code: scale_parameter -> ["_cache", "_create_cache"], every other mutator -> []."""
+    cls = next(n for n in tree.body if isinstance(n, ast.ClassDef) and n.name == "Model")
+    methods = {f.name: f for f in cls.body if isinstance(f, (ast.FunctionDef, ast.AsyncFunctionDef))}
+
+    def self_attrs(f, ctx) -> set[str]:
+        return {n.attr for n in ast.walk(f) if isinstance(n, ast.Attribute) and isinstance(n.value, ast.Name)
+                and n.value.id == "self" and isinstance(n.ctx, ctx)}
+
+    def stores_cache(f) -> bool:
+        for n in ast.walk(f):
+            targets, value = [], None
+            if isinstance(n, ast.Assign):
+                targets, value = n.targets, n.value
+            elif isinstance(n, (ast.AnnAssign, ast.AugAssign)):
+                targets, value = [n.target], n.value
+            for t in targets:
+                for u in ast.walk(t):
+                    if isinstance(u, ast.Attribute) and isinstance(u.value, ast.Name) and u.value.id == "self" and u.attr == "_cache":
+                        if not (isinstance(value, ast.Constant) and value.value is None):
+                            return True
+        # anything that could hand the attribute to foreign code (setattr / __dict__ tricks) is refused as a builder too
+        return any(isinstance(n, ast.Call) and isinstance(n.func, ast.Name) and n.func.id in ("setattr", "vars") for n in ast.walk(f))
+
+    builders = {name for name, f in methods.items() if stores_cache(f)}
+    changed = True
+    while changed:
+        changed = False
+        for name, f in methods.items():
+            if name not in builders and self_attrs(f, ast.Load) & builders:
+                builders.add(name)
+                changed = True
+    modelled = set(singles) | set(BATCH)
+    uses: dict[str, list[str]] = {}
+    for name in list(singles) + BATCH:
+        f = methods.get(name)
+        if f is None:
+            uses[name] = ["<missing>"]
+            continue
+        loads = self_attrs(f, ast.Load)
+        u = sorted(x for x in loads if x in builders and x not in modelled)
+        if "_cache" in loads:
+            u = ["_cache", *u]
+        uses[name] = u
+    return {"cache_uses": uses, "cache_builders": sorted(builders)}
+
+
+def coq_cache_uses(f: dict, singles: list[str]) -> str:
+    def lst(xs):
+        return "[" + "; ".join('"' + x + '"%string' for x in xs) + "]"
+
+    return (
+        "(* what a mutator body does with the memoised cache: the cache-building methods of Model it mentions (nested modelled\n"
+        "   mutators excluded) and \"_cache\" when it reads self._cache; the decorator clears BEFORE the body runs *)\n"
+        "Definition mutator_cache_uses (m : method) : list string :=\n  match m with\n"
+        + "\n".join(f"  | M_{m} => {lst(f['cache_uses'][m])}" for m in singles) + "\n  end.\n"
+        "Definition batch_cache_uses (b : batch) : list string :=\n  match b with\n"
+        + "\n".join(f"  | B_{b} => {lst(f['cache_uses'][b])}" for b in BATCH) + "\n  end.\n"
+    )
+
+
 def coq_alias(f: dict) -> str:
     return (
         "(* do containers cross the API as values?  Aliased = the model / the caller keeps working on the SAME object *)\n"
